@@ -1,7 +1,12 @@
 use std::{
-    sync::{Arc, Mutex},
+    sync::Arc,
     task::{Poll, Waker},
 };
+
+#[cfg(crux_verif)]
+use crate::verif::sync::Mutex;
+#[cfg(not(crux_verif))]
+use std::sync::Mutex;
 
 use futures::Stream;
 
@@ -25,8 +30,6 @@ impl<T> Stream for ShellStream<T> {
         self: std::pin::Pin<&mut Self>,
         cx: &mut std::task::Context<'_>,
     ) -> Poll<Option<Self::Item>> {
-        #[cfg(crux_verif)]
-        let _shared_state_scope = crate::verif::LockScope::new("shell_state");
         let mut shared_state = self.shared_state.lock().unwrap();
 
         if let Some(send_request) = shared_state.send_request.take() {
@@ -68,8 +71,6 @@ where
                 return Err(());
             };
 
-            #[cfg(crux_verif)]
-            let _shared_state_scope = crate::verif::LockScope::new("shell_state");
             let mut shared_state = shared_state.lock().unwrap();
 
             sender.send(result);
